@@ -4,7 +4,33 @@ import Bmc.Proofs.C17.Sess
 import Bmc.Proofs.C17.Sdr
 import Bmc.Proofs.C17.Setup
 import Bmc.Proofs.C17.Dcmi
-import Bmc.Proofs.GenDec
+import Bmc.Proofs.GenDec.TranslatedOk
+import Bmc.Proofs.GenDec.ReserveSDRRepositoryRsp
+import Bmc.Proofs.GenDec.GetSystemGUIDRsp
+import Bmc.Proofs.GenDec.SetSessionPrivilegeLevelRsp
+import Bmc.Proofs.GenDec.GetSDRRsp
+import Bmc.Proofs.GenDec.SDR
+import Bmc.Proofs.GenDec.GetSensorReadingRsp
+import Bmc.Proofs.GenDec.GetChannelCipherSuitesRsp
+import Bmc.Proofs.GenDec.GetChannelAuthenticationCapabilitiesRsp
+import Bmc.Proofs.GenDec.GetSDRRepositoryInfoRsp
+import Bmc.Proofs.GenDec.GetPowerReadingRsp
+import Bmc.Proofs.GenDec.GetChassisStatusRsp
+import Bmc.Proofs.GenDec.GetDeviceIDRsp
+import Bmc.Proofs.GenDec.RAKPMessage4
+import Bmc.Proofs.GenDec.RAKPMessage2
+import Bmc.Proofs.GenDec.RAKPMessage1
+import Bmc.Proofs.GenDec.V1Session
+import Bmc.Proofs.GenDec.GetSessionInfoRsp
+import Bmc.Proofs.GenDec.OpenSessionRsp
+import Bmc.Proofs.GenDec.GetDCMICapabilitiesInfoManageabilityAccessAttrsRsp
+import Bmc.Proofs.GenDec.GetDCMICapabilitiesInfoOptionalPlatformAttrsRsp
+import Bmc.Proofs.GenDec.GetDCMICapabilitiesInfoSupportedCapabilitiesRsp
+import Bmc.Proofs.GenDec.GetDCMICapabilitiesInfoMandatoryPlatformAttrsRsp
+import Bmc.Proofs.GenDec.SessionSelector
+import Bmc.Proofs.GenDec.Message
+import Bmc.Proofs.GenDec.GetDCMICapabilitiesInfoEnhancedSystemPowerStatisticsAttrsRsp
+import Bmc.Proofs.GenDec.GetDCMISensorInfoRsp
 #print axioms Bmc.Proofs.C17.deviceID_reuse
 #print axioms Bmc.Proofs.C17.chassis_reuse
 #print axioms Bmc.Proofs.C17.message_reuse
